@@ -105,6 +105,21 @@ def scenario(x, p):
     import png
     hx.patch(x, builtins, 'open', fake_open)
     hx.patch(x, os.path, 'exists', lambda n: n in files)
+
+    def fake_remove(name, *a, **kw):
+        if name not in files:
+            raise FileNotFoundError(name)
+        del files[name]
+
+    def fake_rename(src, dst, *a, **kw):
+        if src not in files:
+            raise FileNotFoundError(src)
+        state['write_opened'] = state['write_opened'] or dst == dest
+        files[dst] = files.pop(src)
+    hx.patch(x, os, 'remove', fake_remove)
+    hx.patch(x, os, 'unlink', fake_remove)
+    hx.patch(x, os, 'rename', fake_rename)
+    hx.patch(x, os, 'replace', fake_rename)
     hx.patch(x, tempfile, 'TemporaryFile', temp_file)
     hx.patch(x, png, 'Reader', lambda file=None, **kw: FakeReader(rows))
     hx.patch(x, png, 'Writer', Writer)
